@@ -4,6 +4,7 @@ patch="$1"; shift
 cd /repo || exit 2
 git diff --quiet || { echo "repo dirty"; exit 2; }
 git apply "$patch" || { echo "patch does not apply"; exit 2; }
+cp /verif/known_findings.json /tmp/verif-scratch/ 2>/dev/null
 for p in "$@"; do
   VERIF_ROOT=/tmp/verif-scratch /verif/run.sh "$p" quick 2>&1 | grep -E "^   FAIL|^VIOLATION|^OK|^CHECK-ERROR" | cut -c1-260
 done
